@@ -257,7 +257,7 @@ class CreateProp(Prop):
         sizes = tuple(f["size"] for f in t["files"])
         P = case["P"]
         # non-trivial: at least one size not a multiple of the piece length or an empty file
-        if all(s % P == 0 and s > 0 for s in sizes):
+        if P and all(s % P == 0 and s > 0 for s in sizes):
             return None
         return (case["creator"], case["version"], bool(case.get("align")), P, t["name"], sizes)
 
@@ -438,6 +438,15 @@ class C10(CreateProp):
                 for cr in pair:
                     out.append({"creator": cr, "version": v, "P": P, "tree": mk_tree(sh, sizes),
                                 "group": "g%d" % g, "clauses": ["C10.creators"]})
+        # no piece length given: every creator has to arrive at the same automatic choice - payload sizes just above
+        # the thresholds 1000 * 2^e (where a floored quotient and a true quotient disagree) and well inside a step
+        for v, trio in ((2, ("TorrentAssembler", "TorrentFileV2", "cli")), (3, ("TorrentAssembler", "TorrentFileHybrid", "cli"))):
+            for total in ((1000 * 2 ** 14 + 5000, 1000 * 2 ** 15 + 700) if tier != "thorough"
+                          else (1000 * 2 ** 14 + 5000, 1000 * 2 ** 14 + 1, 1000 * 2 ** 15 + 700, 1001 * 2 ** 14 - 1, 1000 * 2 ** 16 + 40000)):
+                g += 1
+                for cr in trio:
+                    out.append({"creator": cr, "version": v, "P": 0, "tree": mk_tree("D2", (total - 70001, 70001)),
+                                "group": "g%d" % g, "clauses": ["C10.creators"]})
         for P in plens(tier):
             more = [k * P + d for k in range(6, 34 if P == B else 13) for d in (0, 1)]
             for s in alphabet(P) + more:
@@ -537,6 +546,14 @@ class C08(CreateProp):
             o2 = dict(infoopts, httpseeds=["http://h.example/"], announce=["http://other/"])
             members.append(dict(base, opts=o2, outer="seeds", outname="other-name.torrent"))
             members.append(dict(base, outname="zzz.torrent", spelling="rel"))
+            # the same payload with other permission bits (executable, read-only ...) and old time stamps
+            members.append(dict(base, file_meta=1 + b))
+            members.append(dict(base, file_meta=3 + b, copy=True))
+            # the content path swallowed by a list-valued option (last value of -a / --web-seed / --http-seed on the
+            # command line, last element of the list through the library): recovered, and nothing of the list may leak
+            members.append(dict(base, opts=o1, outer="trackers", swallowed="A"))
+            members.append(dict(base, opts=o1, outer="trackers", swallowed="W"))
+            members.append(dict(base, opts=o2, outer="seeds", outname="other-name.torrent", swallowed="H"))
             if sh != "S1":          # the output path lies inside the content directory
                 members.append(dict(base, out_inside=True))
                 members.append(dict(base, out_inside=True, spelling="rel", progress=1))
@@ -553,7 +570,8 @@ class C08(CreateProp):
 
     def nontrivial(self, case):
         var = tuple(sorted((k, str(v)) for k, v in case.items()
-                           if k in ("spelling", "cwd_mode", "copy", "enum_perm", "clock", "progress", "outer", "outname", "pre", "out_inside")))
+                           if k in ("spelling", "cwd_mode", "copy", "enum_perm", "clock", "progress", "outer", "outname", "pre", "out_inside",
+                                    "file_meta", "swallowed")))
         if not var or var == (("outer", "plain"),):
             return None
         return (case["group"], var)
